@@ -90,7 +90,23 @@
 //     a struct parameter) and accepted only in methods that do not modify their receiver either, since the two may be
 //     the same object; objects passed to a variadic `...*S` are likewise only read (no store to the elements of the
 //     parameter, no store of an element, no modifying method on the range variable that holds one);
-//   - no package-level variables, maps, floats, channels, closures, defer, goto.
+//   - a FLAT value — a struct VALUE (not reached through a pointer) or array whose fields, recursively, are of basic
+//     types only — contains no reference at all, so Go's assignment copies all of it and the copy shares nothing:
+//     such a value may be stored any number of times (`g.adj[v] = append(g.adj[v], e); g.adj[w] = append(g.adj[w], e)`
+//     for an edge struct e); `x = append(x, s...)` (x a variable, s another slice that is only read) is `x ++ s`,
+//     accepted when the element type is flat (the copied elements share nothing with those of s) or a type
+//     parameter (the translated code has no operation that looks inside such an element);
+//   - a LENT result: `return g.adj[v]` — a plain path of fields / elements of the receiver — returns an ALIAS.  The
+//     translated function states the VALUE of the result at the moment of the return, which is true whether or not
+//     the result shares storage with the receiver; sharing only changes what code sees that runs AFTER the return and
+//     holds both.  The shape is therefore accepted exactly when no translated function mentions the function (the
+//     alias reaches untranslated callers only, about which the generated file claims nothing) and the function itself
+//     writes neither to its receiver nor to a parameter; the generated doc comment carries the remark;
+//   - float64 is COPY-ONLY (`Go.F64`, a bit pattern): field reads, struct literals, assignment, arguments, results and
+//     slice elements move it around unchanged, which is all Go does on a copy; EVERY operator, comparison (also `==`
+//     on a struct or array containing one: IEEE `==` is not equality of bit patterns), conversion, constant, max / min
+//     on the type is refused, so the translated code depends on no property of floating-point numbers at all;
+//   - no package-level variables, maps, channels, closures, defer, goto.
 //
 // Random generators.  A `*rand.Rand` (math/rand) is the VALUE `Go.Rand`: the stream of the draws the generator
 // will still produce and the number already consumed.  `r.Intn(n)` (the only method accepted) panics for
@@ -123,7 +139,9 @@
 // Statements.  Bodies become Lean `do` blocks: a local variable is a `let mut` (always with its Go
 // type), assignment (also tuple-, op-assignment, ++/--) is reassignment, `u.f = e` is
 // `u := { u with f := e }`, `s[i] = e` goes through the bounds-checked `Go.setIdx`, if/else (with
-// init statement), tagless switch (an else-if chain, evaluated case by case), block, early `return`
+// init statement), tagless switch (an else-if chain, evaluated case by case), `switch tag {…}` on an int (the tag is
+// evaluated once, then the case expressions in order, each only if no earlier one was equal — the same chain; a
+// `break` inside a switch outside a loop is refused), block, early `return`
 // are the `do` notation's own.  Evaluation order is Go's: every sub-expression that can panic
 // (`s[i]` → `Go.idx`, make, division, slice expression, call of a non-pure translated function) is bound
 // to a temporary `tN_` by a preceding `let tN_ ← …`, left to right; the right operand of && / || is
